@@ -16,7 +16,7 @@ open W2c2Verif W2c2Verif.WasiPath
     one of them regenerates Gen/WasiPath.lean and breaks this obligation). -/
 theorem gen_assumptions_path :
     Gen.WasiPath.absChar = 47 ∧ Gen.WasiPath.sepTestChar = 47 ∧ Gen.WasiPath.sepChar = 47 ∧
-    Gen.WasiPath.terminator = 0 ∧
+    Gen.WasiPath.terminator = 0 ∧ Gen.WasiPath.rejectsNul = true ∧
     Gen.WasiPath.resolvePathMemcpys =
       ["result, path, pathLength", "result, directory, totalLength", "result + totalLength, path, pathLength"] ∧
     Gen.WasiPath.pathCalls.map (fun c => c.2.2) = [1, 1, 1, 2, 1, 1, 1] := by
@@ -24,7 +24,7 @@ theorem gen_assumptions_path :
 
 /-- **resolvePath_spec.**  For a descriptor path `dir` (non-empty, NUL-free, NUL-terminated in
     its host object) and the guest path = the first `len` bytes at the guest pointer:
-    `len = 0 ↦ false`; `path[0] = '/' ↦ (len < PATH_MAX → path)`; otherwise
+    `len = 0 ↦ false`; a NUL byte among the `len` bytes ↦ false; `path[0] = '/' ↦ (len < PATH_MAX → path)`; otherwise
     `(|dir| + len + 1 < PATH_MAX → dir ++ sep? ++ path)` with `sep? = "/"` iff `dir` does not end
     in `/` (this is `resolveSpec`).  On success the `PATH_MAX` buffer holds exactly that string
     followed by NUL; the remaining bytes of the buffer are untouched. -/
@@ -38,52 +38,60 @@ theorem resolvePath_spec (pm : Nat) (dir tl avail : Bytes) (len : Nat) (buf : By
 /-- `resolveSpec` spelled out as in the property text. -/
 theorem resolveSpec_cases (pm : Nat) (dir path : Bytes) :
     (path = [] → resolveSpec pm dir path = none) ∧
-    (path.head? = some 47 → resolveSpec pm dir path = if path.length < pm then some path else none) ∧
-    (path ≠ [] → path.head? ≠ some 47 →
+    ((0 : UInt8) ∈ path → resolveSpec pm dir path = none) ∧
+    ((0 : UInt8) ∉ path → path.head? = some 47 →
+      resolveSpec pm dir path = if path.length < pm then some path else none) ∧
+    ((0 : UInt8) ∉ path → path ≠ [] → path.head? ≠ some 47 →
       resolveSpec pm dir path =
         if dir.length + path.length + 1 < pm then
           some (dir ++ (if dir.getLast? = some 47 then [] else [47]) ++ path) else none) := by
-  refine ⟨?_, ?_, ?_⟩
+  refine ⟨?_, ?_, ?_, ?_⟩
   · intro h; subst h; simp [resolveSpec]
-  · intro h
-    have : path ≠ [] := by intro h0; subst h0; simp at h
-    have hl : path.length ≠ 0 := by intro h0; exact this (List.eq_nil_of_length_eq_zero h0)
-    simp [resolveSpec, hl, h]
-  · intro hne h
-    have hl : path.length ≠ 0 := by intro h0; exact hne (List.eq_nil_of_length_eq_zero h0)
-    simp [resolveSpec, hl, h, sepOf]
+  · intro h; unfold resolveSpec; split <;> simp [h]
+  · intro h0 h
+    have : path ≠ [] := by intro h1; subst h1; simp at h
+    have hl : path.length ≠ 0 := by intro h1; exact this (List.eq_nil_of_length_eq_zero h1)
+    simp [resolveSpec, hl, h, h0]
+  · intro h0 hne h
+    have hl : path.length ≠ 0 := by intro h1; exact hne (List.eq_nil_of_length_eq_zero h1)
+    simp [resolveSpec, hl, h, h0, sepOf]
 
-/-- What a host call that is handed `result` sees (the bytes before the first NUL) is the
-    specified string whenever the guest path contains no NUL byte. -/
+/-- a resolved path never contains a NUL byte (so the host sees all of it) -/
+theorem resolveSpec_nulfree (pm : Nat) (dir path s : Bytes) (hdir0 : (0 : UInt8) ∉ dir)
+    (hs : resolveSpec pm dir path = some s) : (0 : UInt8) ∉ s := by
+  unfold resolveSpec at hs
+  split at hs
+  · simp at hs
+  · split at hs
+    · simp at hs
+    · rename_i hp0
+      split at hs
+      · split at hs
+        · simp at hs; subst hs; exact hp0
+        · simp at hs
+      · split at hs
+        · simp at hs; subst hs
+          intro h
+          have h3 : (0 : UInt8) ∈ dir ∨ (0 : UInt8) ∈ sepOf dir ∨ (0 : UInt8) ∈ path := by
+            simpa [List.mem_append, or_assoc] using h
+          rcases h3 with h | h | h
+          · exact hdir0 h
+          · unfold sepOf at h; split at h <;> simp at h
+          · exact hp0 h
+        · simp at hs
+
+/-- What a host call that is handed `result` sees (the bytes before the first NUL) is exactly the
+    specified string, for every guest path. -/
 theorem resolvePath_cstr (pm : Nat) (dir tl avail : Bytes) (len : Nat) (buf : Bytes)
-    (hdir0 : (0 : UInt8) ∉ dir) (hdne : dir ≠ []) (hlen : len ≤ avail.length) (hbuf : buf.length = pm)
-    (hp0 : (0 : UInt8) ∉ avail.take len) :
+    (hdir0 : (0 : UInt8) ∉ dir) (hdne : dir ≠ []) (hlen : len ≤ avail.length) (hbuf : buf.length = pm) :
     ∃ r, resolvePath pm (dir ++ 0 :: tl) avail len buf = .val r ∧
       r.map cstr = resolveSpec pm dir (avail.take len) := by
   refine ⟨_, resolvePath_spec pm dir tl avail len buf hdir0 hdne hlen hbuf, ?_⟩
   cases hs : resolveSpec pm dir (avail.take len) with
   | none => simp
   | some s =>
-    have hs0 : (0 : UInt8) ∉ s := by
-      unfold resolveSpec at hs
-      split at hs
-      · simp at hs
-      · split at hs
-        · split at hs
-          · simp at hs; subst hs; exact hp0
-          · simp at hs
-        · split at hs
-          · simp at hs; subst hs
-            intro h
-            have h3 : (0 : UInt8) ∈ dir ∨ (0 : UInt8) ∈ sepOf dir ∨ (0 : UInt8) ∈ avail.take len := by
-              simpa [List.mem_append, or_assoc] using h
-            rcases h3 with h | h | h
-            · exact hdir0 h
-            · unfold sepOf at h; split at h <;> simp at h
-            · exact hp0 h
-          · simp at hs
     simp only [Option.map_some, Option.some.injEq]
-    exact cstr_strcpy s _ hs0
+    exact cstr_strcpy s _ (resolveSpec_nulfree pm dir _ s hdir0 hs)
 
 /-- **resolvePath_in_bounds.**  For EVERY non-empty NUL-free descriptor path, every PATH_MAX,
     every guest memory tail `avail`, every length `len` that lies inside the guest memory and every
@@ -113,15 +121,17 @@ theorem resolvePath_in_bounds (pm : Nat) (dir tl avail : Bytes) (len : Nat) (buf
         split at hs
         · simp at hs
         · split at hs
+          · simp at hs
           · split at hs
-            · simp at hs; subst hs; rw [htl]; assumption
-            · simp at hs
-          · split at hs
-            · simp at hs; subst hs
-              simp only [List.length_append, htl]
-              have : (sepOf dir).length ≤ 1 := by unfold sepOf; split <;> simp
-              omega
-            · simp at hs
+            · split at hs
+              · simp at hs; subst hs; rw [htl]; assumption
+              · simp at hs
+            · split at hs
+              · simp at hs; subst hs
+                simp only [List.length_append, htl]
+                have : (sepOf dir).length ≤ 1 := by unfold sepOf; split <;> simp
+                omega
+              · simp at hs
       subst hb
       refine ⟨?_, ?_, ?_⟩
       · simp; omega
@@ -149,6 +159,8 @@ example : resolvePath 16 [47, 116, 109, 112, 0] (List.replicate 10 97) 10 (List.
     = .val (some ([47, 116, 109, 112, 47] ++ List.replicate 10 97 ++ [0])) := by decide
 example : resolvePath 16 [47, 116, 109, 112, 0] (List.replicate 11 97) 11 (List.replicate 16 0xAA)
     = .val none := by decide
+/-- a NUL byte anywhere in the guest path is rejected -/
+example : resolvePath 16 [47, 116, 109, 112, 0] [97, 0, 98] 3 (List.replicate 16 0xAA) = .val none := by decide
 /-- `dir ≠ []` is necessary: an empty descriptor path makes the code read `directory[-1]`
     (wasiFileDescriptorsAdd rejects empty paths, so no descriptor has one) -/
 example : resolvePath 16 [0] [97] 1 (List.replicate 16 0) = .ub .outOfBounds := by decide
@@ -162,8 +174,7 @@ example : resolvePath 16 [47, 116, 109, 112, 0] [97, 98] 3 (List.replicate 16 0)
 /-- **path_op_acts_on_resolved** (create_directory, remove_directory, unlink_file, readlink,
     filestat_get).  With a descriptor whose path is `dir`: the call performs no host operation
     and returns EINVAL when `resolvePath` rejects; otherwise it performs exactly ONE host
-    operation, the one belonging to the call, on exactly the resolved string (up to its first
-    NUL), and returns 0 or the `wasiErrno` translation of the host's errno.  No undefined
+    operation, the one belonging to the call, on exactly the resolved path, and returns 0 or the `wasiErrno` translation of the host's errno.  No undefined
     behaviour for any guest input (the `strcpy` into the second `char[PATH_MAX]` fits). -/
 theorem path_op_acts_on_resolved (pm : Nat) (host : HostOp → HostRes) (fds : FdTable) (call : PathCall)
     (fd : Nat) (dir tl avail : Bytes) (len : Nat) (s1 s2 : Bytes)
@@ -174,7 +185,7 @@ theorem path_op_acts_on_resolved (pm : Nat) (host : HostOp → HostRes) (fds : F
       match resolveSpec pm dir (avail.take len) with
       | none => ⟨Gen.WasiPath.errnoInval, []⟩
       | some p =>
-        let op := call.hostOp (cstr p)
+        let op := call.hostOp p
         ⟨match host op with | .ok => Gen.WasiPath.errnoSuccess | .err e => wasiErrno e, [op]⟩) := by
   obtain ⟨⟨r, hr, hb⟩, _⟩ := resolvePath_in_bounds pm dir tl avail len s1 hdir0 hdne hlen hs1
   have hspec := resolvePath_spec pm dir tl avail len s1 hdir0 hdne hlen hs1
@@ -194,8 +205,8 @@ theorem path_op_acts_on_resolved (pm : Nat) (host : HostOp → HostRes) (fds : F
     simp only [Out.bind_val]
     have hc : cstr (s ++ [0] ++ s1.drop (s ++ [0]).length) = cstr s := by
       rw [List.append_assoc]; exact cstr_append_nul s _
-    rw [cstr_strcpy _ _ (cstr_nul_free _), hc]
-    cases host (call.hostOp (cstr s)) <;> rfl
+    rw [cstr_strcpy _ _ (cstr_nul_free _), hc, cstr_nulfree s (resolveSpec_nulfree pm dir _ s hdir0 hs)]
+    cases host (call.hostOp s) <;> rfl
 
 /-- a bad descriptor (out of range, or one without a path such as stdin/stdout/stderr) is
     rejected with EBADF before anything else happens -/
@@ -224,7 +235,7 @@ theorem resolved_strcpy (pm : Nat) (dir tl avail : Bytes) (len : Nat) (s1 s2 : B
     match resolveSpec pm dir (avail.take len) with
     | none => resolvePath pm (dir ++ 0 :: tl) avail len s1 = .val none
     | some p => ∃ b native, resolvePath pm (dir ++ 0 :: tl) avail len s1 = .val (some b) ∧
-        strcpy s2 b = .val native ∧ cstr native = cstr p := by
+        strcpy s2 b = .val native ∧ cstr native = p := by
   obtain ⟨⟨r, hr, hb⟩, _⟩ := resolvePath_in_bounds pm dir tl avail len s1 hdir0 hdne hlen hs1
   have hspec := resolvePath_spec pm dir tl avail len s1 hdir0 hdne hlen hs1
   cases hs : resolveSpec pm dir (avail.take len) with
@@ -239,7 +250,7 @@ theorem resolved_strcpy (pm : Nat) (dir tl avail : Bytes) (len : Nat) (s1 s2 : B
     refine ⟨_, _, by rw [hspec, hs]; rfl, strcpy_ok s2 _ hnul (by omega), ?_⟩
     have hc : cstr (s ++ [0] ++ s1.drop (s ++ [0]).length) = cstr s := by
       rw [List.append_assoc]; exact cstr_append_nul s _
-    rw [cstr_strcpy _ _ (cstr_nul_free _), hc]
+    rw [cstr_strcpy _ _ (cstr_nul_free _), hc, cstr_nulfree s (resolveSpec_nulfree pm dir _ s hdir0 hs)]
 
 /-- **path_rename acts on the two resolved paths**: both descriptors are looked up, both guest
     paths resolved (old first); then exactly one `rename(old, new)` on the resolved strings. -/
@@ -252,7 +263,7 @@ theorem path_rename_acts_on_resolved (pm : Nat) (host : HostOp → HostRes) (fds
     pathRename pm host fds fd1 a1 l1 fd2 a2 l2 s1 s2 s3 s4 = .val (
       match resolveSpec pm d1 (a1.take l1), resolveSpec pm d2 (a2.take l2) with
       | some p1, some p2 =>
-        let op := HostOp.rename (cstr p1) (cstr p2)
+        let op := HostOp.rename p1 p2
         ⟨match host op with | .ok => Gen.WasiPath.errnoSuccess | .err e => wasiErrno e, [op]⟩
       | _, _ => ⟨Gen.WasiPath.errnoInval, []⟩) := by
   have r1 := resolved_strcpy pm d1 t1 a1 l1 s1 s3 h10 h1ne hl1 hs1 hs3
@@ -273,10 +284,11 @@ theorem path_rename_acts_on_resolved (pm : Nat) (host : HostOp → HostRes) (fds
       obtain ⟨b2, n2, e2, c2, k2⟩ := r2
       rw [e2]
       simp only [Out.bind_val, c1, c2, k1, k2]
-      cases host (HostOp.rename (cstr p1) (cstr p2)) <;> rfl
+      cases host (HostOp.rename p1 p2) <;> rfl
 
-/-- **path_symlink**: the link target is taken verbatim (rejected iff `oldPathLength ≥ PATH_MAX`),
-    the link path is resolved; exactly one `symlink(target, resolved)`. -/
+/-- **path_symlink**: the link target is taken verbatim up to its first NUL (rejected iff
+    `oldPathLength ≥ PATH_MAX`; it is link *content*, not resolved), the link path is resolved;
+    exactly one `symlink(target, resolved)`. -/
 theorem path_symlink_acts_on_resolved (pm : Nat) (host : HostOp → HostRes) (fds : FdTable)
     (fd : Nat) (d t ta a : Bytes) (tl l : Nat) (s1 s2 s3 s4 : Bytes)
     (hfd : fds[fd]? = some (some (d ++ 0 :: t)))
@@ -286,7 +298,7 @@ theorem path_symlink_acts_on_resolved (pm : Nat) (host : HostOp → HostRes) (fd
       if pm ≤ tl then ⟨Gen.WasiPath.errnoInval, []⟩ else
       match resolveSpec pm d (a.take l) with
       | some p =>
-        let op := HostOp.symlink (cstr (ta.take tl)) (cstr p)
+        let op := HostOp.symlink (cstr (ta.take tl)) p
         ⟨match host op with | .ok => Gen.WasiPath.errnoSuccess | .err e => wasiErrno e, [op]⟩
       | none => ⟨Gen.WasiPath.errnoInval, []⟩) := by
   have r2 := resolved_strcpy pm d t a l s2 s4 h0 hne hl hs2 hs4
@@ -315,38 +327,14 @@ theorem path_symlink_acts_on_resolved (pm : Nat) (host : HostOp → HostRes) (fd
       rw [strcpy_ok s3 _ hnul hfit]
       simp only [Out.bind_val, c2, k2]
       rw [cstr_strcpy _ _ (cstr_nul_free _), hc]
-      cases host (HostOp.symlink (cstr (ta.take tl)) (cstr p)) <;> rfl
+      cases host (HostOp.symlink (cstr (ta.take tl)) p) <;> rfl
 
-/-- For NUL-free guest paths the operation is on exactly the specified string. -/
-theorem path_op_acts_on_resolved_nulfree (pm : Nat) (host : HostOp → HostRes) (fds : FdTable) (call : PathCall)
-    (fd : Nat) (dir tl avail : Bytes) (len : Nat) (s1 s2 p : Bytes)
-    (hfd : fds[fd]? = some (some (dir ++ 0 :: tl)))
-    (hdir0 : (0 : UInt8) ∉ dir) (hdne : dir ≠ []) (hlen : len ≤ avail.length)
-    (hs1 : s1.length = pm) (hs2 : s2.length = pm)
-    (hp0 : (0 : UInt8) ∉ avail.take len) (hs : resolveSpec pm dir (avail.take len) = some p) :
-    ∃ e, pathCall pm host fds call fd avail len s1 s2 = .val ⟨e, [call.hostOp p]⟩ := by
-  rw [path_op_acts_on_resolved pm host fds call fd dir tl avail len s1 s2 hfd hdir0 hdne hlen hs1 hs2, hs]
-  obtain ⟨r, hr, hm⟩ := resolvePath_cstr pm dir tl avail len s1 hdir0 hdne hlen hs1 hp0
-  have hspec := resolvePath_spec pm dir tl avail len s1 hdir0 hdne hlen hs1
-  rw [hspec, hs] at hr
-  simp only [Option.map_some, Out.val.injEq] at hr
-  rw [← hr, hs] at hm
-  simp only [Option.map_some, Option.some.injEq] at hm
-  have hc : cstr (p ++ [0] ++ s1.drop (p ++ [0]).length) = cstr p := by
-    rw [List.append_assoc]; exact cstr_append_nul p _
-  rw [hc] at hm
-  simp only [hm]
-  exact ⟨_, rfl⟩
-
-/-- **path_embedded_nul_counterexample.**  A guest path with a NUL byte: `path_create_directory`
-    of `a\0b` under `/d` creates `/d/a` — the host operation does not act on the resolved path
-    `/d/a\0b` (which the host cannot name) and the call is not rejected. -/
-theorem path_embedded_nul_counterexample :
+/-- **path_embedded_nul_rejected** (regression of the former finding `path-embedded-nul-truncated`):
+    `path_create_directory("a\0b")` performs NO host operation and returns EINVAL. -/
+theorem path_embedded_nul_rejected :
     pathCall 32 (fun _ => .ok) [some [47, 100, 0]] .createDirectory 0 [97, 0, 98] 3
         (List.replicate 32 0xAA) (List.replicate 32 0xAA)
-      = .val ⟨0, [.mkdir [47, 100, 47, 97] 0o755]⟩ ∧
-    resolveSpec 32 [47, 100] [97, 0, 98] = some [47, 100, 47, 97, 0, 98] := by
+      = .val ⟨Gen.WasiPath.errnoInval, []⟩ := by
   decide
-
 
 end W2c2Verif.C14
